@@ -404,6 +404,8 @@ func leanTypeName(t string) string {
 		return "(List Go.ClkAction)"
 	case "Ctx":
 		return "Bool"
+	case "Opaque": // element of a slice the function only takes the length of
+		return "Unit"
 	}
 	if strings.HasPrefix(t, "L_") {
 		return "(List " + leanTypeName(strings.TrimPrefix(t, "L_")) + ")"
